@@ -20,10 +20,12 @@ type Ctx struct {
 	W *ir.World
 	R *check.Result
 
-	rootedSet map[*ssa.Function]bool
-	hold      *holderTypes
-	wparams   map[*ssa.Function]map[int]bool
-	denomOrd  map[string]int
+	rootedSet      map[*ssa.Function]bool
+	hold           *holderTypes
+	wparams        map[*ssa.Function]map[int]bool
+	denomOrd       map[string]int
+	claimStepsDone bool
+	claimStepFns   []*ssa.Function
 }
 
 // Rooted reports whether f is reachable from any ABCI root (handlers, ante, blockers,
@@ -250,8 +252,26 @@ func instantiate(c *Ctx, root *ssa.Function, pred func(ir.Effect) bool, sel func
 				out = append(out, Inst{Eff: e, E: x})
 				continue
 			}
-			for _, up := range c.W.OriginsUpTo(f, x, root, 8) {
+			ups := c.W.OriginsUpTo(f, x, root, 8)
+			for _, up := range ups {
 				out = append(out, Inst{Eff: e, E: up.E, Chain: up.Chain})
+			}
+			if len(ups) == 0 {
+				// not reached by direct calls (a closure handed to a helper that calls it): locate the occurrences on the
+				// flat view of root, where calls through function-typed parameters are resolved in context
+				fr := c.W.FlatRoot(root)
+				seen := map[*ir.FCtx]bool{}
+				c.W.FlatWalk(fr, nil, nil, func(p ir.FPos) bool {
+					if p.In == e.Site && !seen[p.Ctx] {
+						seen[p.Ctx] = true
+						var chain []ssa.Instruction
+						for cx := p.Ctx; cx != nil && cx.Call != nil; cx = cx.Up {
+							chain = append([]ssa.Instruction{cx.Call}, chain...)
+						}
+						out = append(out, Inst{Eff: e, E: p.Ctx.Apply(x), Chain: chain})
+					}
+					return true
+				})
 			}
 		}
 	}
